@@ -204,11 +204,11 @@ def nontrivial_runs(ctx, recs, pred):
         cur.append(r)
 
 
-def mc(ctx, cfg, **kw):
+def mc(ctx, cfg, cov=True, **kw):
     """tlc_mc; in the thorough tier with -coverage.  TLC prints interim coverage reports once a minute in which
     sub-actions not reached yet show 0, so vlib's zero detection is bypassed (allow_zero) and redone here on
     the LAST report only."""
-    cov = not ctx.quick and kw.get("expect_violation") is None
+    cov = cov and not ctx.quick and kw.get("expect_violation") is None
     res = ctx.tlc_mc("Directory", "Directory.tla", cfg, coverage=cov, allow_zero=("Next", "Init", "ResetTo"), **kw)
     if cov and res.get("ok"):
         last = res["out"].split("The coverage statistics at")[-1]
@@ -240,14 +240,17 @@ def run(ctx):
     # ---- M (map + trie: Canonical, Resolvable for all kinds; the switching invariants belong to C16)
     f_mc = ex.submit(mc, ctx, "MCDirectoryMap.cfg", timeout=1500, workers=4 if q else 8)
     # ---- G: histories x cases (all generated by TLC), harness build concurrently
-    f_base = gen("GenDirectoryCasesBase15.cfg", marker="CASE", timeout=600)
     f_all = gen("GenDirectoryCases15.cfg", marker="CASE", timeout=600)
     f_ops = gen("GenDirectoryOps15D3.cfg" if q else "GenDirectoryOps15D4.cfg", timeout=1200, workers=2)
     f_deep = None if q else gen("GenDirectoryOps15D5.cfg", timeout=2400, workers=4)
     f_sim = gen("GenDirectorySim15.cfg", simulate=6 if q else 100, depth=61 * (2 if q else 4) + 1, timeout=1200)
     f_bin = ex.submit(build, ctx)
-    base, allc, ops, sims, binp = f_base.result(), f_all.result(), f_ops.result(), f_sim.result(), f_bin.result()
-    if not base or not allc or not ops or not sims:
+    allc, ops, sims, binp = f_all.result(), f_ops.result(), f_sim.result(), f_bin.result()
+    if not allc or not ops or not sims:
+        return
+    base = sorted([c for c in allc if c.get("base")], key=lambda c: json.dumps(c, sort_keys=True))
+    if len(base) != 6:
+        ctx.broken("expected 6 base configurations among the generated cases, got %d" % len(base))
         return
     rng = ctx.rng
     behs = []
@@ -256,15 +259,15 @@ def run(ctx):
         if q:
             sel = rng.sample(ops, min(len(ops), int(os.environ.get("VERIF_C15_SAMPLE", "450"))))
         behs += [dict(w=c["w"], cfg=c["cfg"], ops=o) for o in sel]
-    rest = [c for c in allc if c not in base]
+    rest = sorted([c for c in allc if not c.get("base")], key=lambda c: json.dumps(c, sort_keys=True))
     rng.shuffle(rest)
     for c in rest[:40 if q else len(rest)]:
-        for o in rng.sample(ops, min(12 if q else 60, len(ops))):
+        for o in rng.sample(ops, min(12 if q else 30, len(ops))):
             behs.append(dict(w=c["w"], cfg=c["cfg"], ops=o))
     if f_deep:                                # depth 5: sampled for every non-basic base configuration
         deep = f_deep.result()
         for c in [c for c in base if c["cfg"]["kind"] != "basic"]:
-            behs += [dict(w=c["w"], cfg=c["cfg"], ops=o) for o in rng.sample(deep, min(8000, len(deep)))]
+            behs += [dict(w=c["w"], cfg=c["cfg"], ops=o) for o in rng.sample(deep, min(5000, len(deep)))]
         ctx.cov["exhaustive"] = True
     behs += sims
     ctx.log("G: %d histories (%d base configurations, %d of %d other configurations, %d simulated)" %
